@@ -64,13 +64,33 @@ R9 = {
  "C19": "a dump is decoded into an empty model",
  "C20": "redacted bytes handed out are not a view of pooled storage",
 }
-GENERIC = "generic hygiene over the property's packages: no loop-variable address escapes its iteration, every mutex acquired in a function is released on every path to its return and not re-acquired in a callee, a field accessed through sync/atomic is never accessed plainly outside construction (frozen exceptions), storage given back to a pool is not returned or stored, no append onto a loop-invariant slice whose result is kept"
+R10 = {
+ "C01": "HTTP/2: a header block is encoded and written under one hold of the connection mutex (HPACK tables of both ends stay equal)",
+ "C02": "HTTP/2 frame reader: a header block is fed to the connection HPACK decoder once, after all of it arrived",
+ "C03": "cleanStream is called only where the exchange has a terminal outcome (frozen who-may-call table with guards)",
+ "C04": "every configured header condition is looked up and compared before the next one is considered",
+ "C05": "the balancer a snapshot publishes is built from the host set the same snapshot publishes",
+ "C06": "the balancer a snapshot publishes is built from the host set (and weights) the same snapshot publishes",
+ "C07": "the HTTP/2 client preface is asked for until it was read",
+ "C09": "a circuit-breaker counter moves by exactly one per Increase/Decrease",
+ "C10": "a circuit-breaker counter moves by exactly one per Increase/Decrease (no saturation, no clamping)",
+ "C12": "an update of a listener's stream filters is always installed",
+ "C13": "the provider list is an ordered image of the configured tls contexts",
+ "C14": "every hijack API replaces headers, data and trailers of the stored response",
+ "C16": "the changed value of the threshold automaton reaches the callbacks and the gauge as it is",
+ "C17": "the rewritten host becomes the Host of the HTTP/1.1 upstream request whenever it is set",
+ "C18": "the strings of an indexed HPACK literal are decoded whatever the emit switch says",
+ "C19": "a pointer-receiver MarshalJSON is never on a configuration type stored by value",
+}
+GENERIC = "generic hygiene over the property's packages: no loop-variable address escapes its iteration, every mutex acquired in a function is released on every path to its return and not re-acquired in a callee, a field accessed through sync/atomic is never accessed plainly outside construction (frozen exceptions), storage given back to a pool is not returned or stored, no append onto a loop-invariant slice whose result is kept, no signed remainder of a converted unsigned 64-bit value"
 props = [json.loads(l)['id'] for l in open('/verif/properties.jsonl')]
 checks, na = [], []
 for p in props:
     dec, tech, notdec = T[p]
     if p in R9:
         dec = dec + "; " + R9[p]
+    if p in R10:
+        dec = dec + "; " + R10[p]
     dec = dec + "; " + GENERIC
     tech = tech + ", lock-balance and atomic-discipline dataflow"
     if p in R8:
